@@ -17,6 +17,13 @@
           (the "pair" invariant J: it survives the merge of the not-yet-optimal right half r into M)
      2048 at every state of mergeRight's loop (current block N): the same, and every in-constraint of N has slack >= 0
           (invariant I2: what makes the pull to the left by a merged right neighbour harmless)
+     4096 whenever mergeLeft(l)'s loop inside split tests the root of the in-heap, no in-constraint of the current block
+          is more violated (StaticInvB.root_minb in the split context)
+     8192 every violated in-constraint of the current block is in its in-heap (StaticInvB.in_heapb in the split context)
+     16384 "mode A": while the right half r is not part of the current block M, no variable outside M moved since split
+          entry, and every variable u of M is to the left of its position at split entry by at least the violation of
+          every in-constraint of M
+     32768 if mergeLeft(l) returns without having merged r, every slack >= 0 exactly
    Bits 4, 8 and 256 are the NAIVE candidates; they are FALSE on reachable DAG states (r is merged into l's block by
    mergeLeft(l) when a constraint from r's side to l's side becomes violated, the merged block then moves right and its
    out-constraints are repaired by mergeRight) - bits 1024/2048 are the invariants that do hold. *)
@@ -52,31 +59,45 @@ Definition insatb (s : sst) (N : nat) : bool := forallb (fun i => Qleb 0 (sslack
 Definition Jb (s : sst) (N : nat) : bool := restb s N && pairb s N.
 Definition I2b (s : sst) (N : nat) : bool := restb s N && pairb s N && insatb s N.
 
-(* ml_loop inside split, with J evaluated at every tested state *)
-Fixpoint ml_loop_J (fuel : nat) (s : sst) (r : nat) (c : option nat) (mask : nat) : res sst * nat :=
+(* Y coordinate = scale * position (the coordinates in which every constraint is a difference constraint) *)
+Definition ycoord (s : sst) (v : nat) : Q := scl (var_of (base s) v) * position (base s) v.
+Definition ycoords (s : sst) : list Q := map (ycoord s) (seq 0 (length (svars (base s)))).
+Definition modeAb (s : sst) (M : nat) (rv : nat) (Yb : list Q) : bool :=
+  Nat.eqb (blk_of (base s) rv) M ||
+  forallb (fun u =>
+     if Nat.eqb (blk_of (base s) u) M
+     then Qleb (ycoord s u) (nth u Yb 0) &&
+          forallb (fun i => Qleb (- sslack s i) (nth u Yb 0 - ycoord s u)) (in_cons s M)
+     else Qeqb (ycoord s u) (nth u Yb 0))
+    (seq 0 (length (svars (base s)))).
+
+(* ml_loop inside split, with J (and root-min, in-heap completeness, mode A) evaluated at every tested state;
+   rv = a variable of the right half, Yb = Y coordinates at split entry *)
+Fixpoint ml_loop_J (fuel : nat) (s : sst) (r : nat) (c : option nat) (rv : nat) (Yb : list Q) (mask : nat) : res sst * nat :=
   match fuel with
   | O => (OutOfFuel, mask)
   | S f =>
-      let mask1 := mor mask (bitv (Jb s r) 1024) in
+      let mask1 := mor mask (bitv (Jb s r) 1024 + bitv (root_minb s r c) 4096 + bitv (in_heapb s r) 8192 +
+                             bitv (modeAb s r rv Yb) 16384)%nat in
       match c with
       | None => (Ok s, mask1)
       | Some c0 =>
           let s0 := snote_slack TIE_EPS s c0 0 in
           if Qltb (sslack s0 c0) 0 then
             match ml_body s0 r c0 with
-            | Ok (s', r', c') => ml_loop_J f s' r' c' mask1
+            | Ok (s', r', c') => ml_loop_J f s' r' c' rv Yb mask1
             | ThrowUnsat x => (ThrowUnsat x, mask1)
             | OutOfFuel => (OutOfFuel, mask1)
             end
           else (Ok s0, mask1)
       end
   end.
-Definition merge_left_J (s : sst) (r : nat) (mask : nat) : res sst * nat :=
+Definition merge_left_J (s : sst) (r : nat) (rv : nat) (Yb : list Q) (mask : nat) : res sst * nat :=
   let s1 := set_ctr s (S (ctr s)) in
   let s2 := set_btime s1 (upd_nth (btime s1) r (ctr s1)) in
   let s3 := set_up_heap true s2 r in
   match find_min_in s3 r with
-  | Ok p => ml_loop_J (loop_fuel s) (fst p) r (snd p) mask
+  | Ok p => ml_loop_J (loop_fuel s) (fst p) r (snd p) rv Yb mask
   | ThrowUnsat x => (ThrowUnsat x, mask)
   | OutOfFuel => (OutOfFuel, mask)
   end.
@@ -123,10 +144,11 @@ Definition static_split_chk (s : sst) (b c : nat) (mask : nat) : res sst * nat :
                               forallb (fun v => Nat.eqb (blk_of (base s3) v) l ||
                                                 Qeqb (position (base s3) v) (nth v Yb 0))
                                       (seq 0 (length (svars (base s3))))) 2) in
-      match merge_left_J s3 l m1 with
+      match merge_left_J s3 l (cr (con_of (base s) c)) (ycoords s) m1 with
       | (Ok s4, m1) =>
           let Yc := spos s4 in
-          let m2 := mor m1 (bitv (all_satb s4) 4 + bitv (all_leb Yc Yb) 8)%nat in
+          let m2 := mor m1 (bitv (all_satb s4) 4 + bitv (all_leb Yc Yb) 8 +
+                              bitv (Nat.eqb (lblk s4 c) (rblk s4 c) || all_satb s4) 32768)%nat in
           let r' := rblk s4 c in
           let s5 := set_base s4 (update_weighted_position (base s4) r') in
           let m3 := mor m2 (bitv (all_leb Yc (spos s5)) 16) in
